@@ -21,7 +21,7 @@ open LccModel.Report LccModel.Session LccModel.Run
 def Quiet {α : Type} (L : Loc) (m : M α) : Prop := TrA (JT L) (PIn L (fun _ _ _ => True)) m
 
 theorem userOk_true (L : Loc) : UserOk (PIn L (fun _ _ _ => True)) :=
-  ⟨fun _ _ _ _ => trivial, fun _ _ _ _ _ => trivial, fun _ _ _ _ => trivial⟩
+  ⟨fun _ _ _ _ => trivial, fun _ _ _ _ _ => trivial, fun _ _ _ _ => trivial, fun _ _ _ _ => trivial⟩
 
 /-- what quietness means for the emitted items -/
 theorem Quiet.no_test_or_suite_event {α : Type} {L : Loc} {m : M α} (h : Quiet L m) (ts : TS) (hj : JT L ts.sess) :
@@ -255,7 +255,7 @@ theorem cnt_mono {α : Type} {J J' : St → Prop} {p : Path} {m : M α} {a n : N
 theorem inner_noBE (L : Loc) (p : Path) : Inner (JC L) (NoBE p) :=
   (inner_JC L (fun _ _ _ => True)).mono (fun _ _ => rfl)
 
-theorem userOk_noBE (p : Path) : UserOk (NoBE p) := ⟨fun _ _ _ _ => rfl, fun _ _ _ _ _ => rfl, fun _ _ _ _ => rfl⟩
+theorem userOk_noBE (p : Path) : UserOk (NoBE p) := ⟨fun _ _ _ _ => rfl, fun _ _ _ _ _ => rfl, fun _ _ _ _ => rfl, fun _ _ _ _ => rfl⟩
 
 theorem uActs_noBE (p : Path) : UActs (NoBE p) (.body p) := by
   intro r w hw
